@@ -159,6 +159,13 @@ structure VS (cfg : Cfg) where
   blocked : List Bool   -- real worker id ↦ is inside `condvar.wait`
   post : Bool           -- inside a call made after the final answer
   pushed : Bool         -- the current source call has pushed a unit
+  -- how often each part of the abstraction was used (reported by the driver on request, `stats=1`)
+  nSwap : Nat := 0      -- renamings of two workers
+  nPhantom : Nat := 0   -- wake-up / wait pairs without a model step
+  nDropWin : Nat := 0   -- waits between the two halves of `Drop`
+  nObs : Nat := 0       -- check-only events of stutter iterations
+  nEarly : Nat := 0     -- spawn checks placed at the load of `active_workers`
+  nPost : Nat := 0      -- calls after the final answer
 
 def VS.start (cfg : Cfg) : VS cfg :=
   { path := Path.start cfg, perm := List.range cfg.initialWorkers,
@@ -223,7 +230,7 @@ def onC {cfg : Cfg} (v : VS cfg) : CEv → R cfg
   | .ldActive _ => .ok v
   | .nop => .ok v
   | .spawn _ q d => onSpawn v (fun s => s.queue.length == q) d
-  | .spawnAtLoad a d => onSpawn v (fun s => s.active == a) d
+  | .spawnAtLoad a d => onSpawn { v with nEarly := v.nEarly + 1 } (fun s => s.active == a) d
   | .spawnAtLen q d => onSpawn v (fun s => s.queue.length == q) d
   | .src .more =>
     if v.pushed then
@@ -258,7 +265,8 @@ def onObs {cfg : Cfg} (v : VS cfg) (e : CEv) : R cfg :=
     | .qlen true => decide (s.queue.length < 4)
     | .src .more => true
     | _ => false
-  if good then .ok v else .error "observation of a stutter iteration differs from the model state"
+  if good then .ok { v with nObs := v.nObs + 1 }
+  else .error "observation of a stutter iteration differs from the model state"
 
 def swapPerm (perm : List Nat) (i i2 : Nat) : List Nat :=
   (perm.set i (perm.getD i2 0)).set i2 (perm.getD i 0)
@@ -273,7 +281,7 @@ def findSwap {cfg : Cfg} (v : VS cfg) : Option Nat :=
 def ensureSteal {cfg : Cfg} (v : VS cfg) (i : Nat) : VS cfg :=
   if v.path.sys.ws[v.perm.getD i 0]? == some .waiting then
     match findSwap v with
-    | some i2 => { v with perm := swapPerm v.perm i i2 }
+    | some i2 => { v with perm := swapPerm v.perm i i2, nSwap := v.nSwap + 1 }
     | none => v
   else v
 
@@ -292,9 +300,9 @@ def onW {cfg : Cfg} (v : VS cfg) (i : Nat) (e : WEv) : R cfg :=
     let j := v.perm.getD i 0
     match v.path.sys.ws[j]? with
     | some .steal =>
-      if v.path.sys.closed then .ok (setBlocked v i true)     -- between the two halves of `Drop`
+      if v.path.sys.closed then .ok { setBlocked v i true with nDropWin := v.nDropWin + 1 } -- between the halves of `Drop`
       else (wStep v j (· == .steal) (· == .waiting)).map fun v => setBlocked v i true
-    | some .waiting => .ok (setBlocked v i true)                -- woken for an item that was gone
+    | some .waiting => .ok { setBlocked v i true with nPhantom := v.nPhantom + 1 }  -- woken for an item that was gone
     | w => .error s!"model worker {j} is at {repr w}"
   | .woke => .ok (setBlocked v i false)
   | .inc => wStep v (v.perm.getD i 0) (fun w => match w with | .got _ => true | _ => false) (fun _ => true)
@@ -322,7 +330,7 @@ def isFinal : CPc → Bool
 
 def onEv {cfg : Cfg} (v : VS cfg) : Ev → R cfg
   | .call =>
-    if isFinal v.path.sys.pc then .ok { v with post := true } else pathStep v .call
+    if isFinal v.path.sys.pc then .ok { v with post := true, nPost := v.nPost + 1 } else pathStep v .call
   | .drop => pathStep v .drop
   | .ret r =>
     if v.path.sys.pc == .idle (some r) then .ok { v with post := false }
